@@ -968,6 +968,7 @@ func preludeT1() string {
 		}
 		fmt.Fprintf(&sb, "(declare-fun %s_sqrt (%s) %s)\n", p, S, S)
 		fmt.Fprintf(&sb, "(declare-fun %s_round (%s) %s)\n", p, S, S)
+		fmt.Fprintf(&sb, "(declare-fun %s_floor (%s) %s)\n(declare-fun %s_ceil (%s) %s)\n(declare-fun %s_trunc (%s) %s)\n", p, S, S, p, S, S, p, S, S)
 		for _, w := range []int{8, 16, 32, 64} {
 			for _, sg := range []bool{true, false} {
 				fmt.Fprintf(&sb, "(declare-fun i2f_%d_%v_%s ((_ BitVec %d)) %s)\n", w, sg, p, w, S)
@@ -993,6 +994,7 @@ func preludeT2() string {
 		}
 		fmt.Fprintf(&sb, "(define-fun %s_sqrt ((a %s)) %s (fp.sqrt RNE a))\n", p, S, S)
 		fmt.Fprintf(&sb, "(define-fun %s_round ((a %s)) %s (fp.roundToIntegral RNA a))\n", p, S, S)
+		fmt.Fprintf(&sb, "(define-fun %s_floor ((a %s)) %s (fp.roundToIntegral RTN a))\n(define-fun %s_ceil ((a %s)) %s (fp.roundToIntegral RTP a))\n(define-fun %s_trunc ((a %s)) %s (fp.roundToIntegral RTZ a))\n", p, S, S, p, S, S, p, S, S)
 		eb, sbits := 8, 24
 		if p == "f64" {
 			eb, sbits = 11, 53
